@@ -173,14 +173,27 @@ def check_query(q, funcs, enums, tier, logdir):
             # slice of a large function, located through source text so that unrelated edits do not move it
             src = os.path.join(REPO, q.get("crate", "quinn-proto"), "src", q["src"])
             lines = open(src).read().splitlines()
-            def locate(rx, after=0):
-                hits = [i + 1 for i, l in enumerate(lines) if i + 1 > after and re.search(rx, l)]
-                if not hits:
-                    raise Untranslatable("source line /%s/ not found in %s" % (rx, q["src"]))
-                return hits[0]
+            def locate(rx, after=0, fuzzy=False):
+                alts = rx if isinstance(rx, list) else [rx]
+                for r in alts:
+                    hits = [i + 1 for i, l in enumerate(lines) if i + 1 > after and re.search(r, l)]
+                    if hits:
+                        return hits[0]
+                if fuzzy and after:
+                    # the anchor line itself was edited: take the line of the same function that is closest to the
+                    # anchor's literal text (reported in the result); a wrong guess can only produce a candidate that
+                    # does not replay (inconclusive), never a pass
+                    import difflib
+                    lit = re.sub(r"\\(.)", r"\1", re.sub(r"^\^\s*|\$$|\(\?#\w+\)", "", alts[0])).strip()
+                    end = next((i + 1 for i, l in enumerate(lines) if i + 1 > after and re.match(r"^    \}\s*$", l)), len(lines))
+                    scored = sorted(((difflib.SequenceMatcher(None, lit, lines[i].strip()).ratio(), i + 1) for i in range(after, end)), reverse=True)
+                    if scored and scored[0][0] >= 0.55 and (len(scored) < 2 or scored[0][0] - scored[1][0] >= 0.05):
+                        res["slice_located_approximately"] = "anchor /%s/ not found; using line %d (%r, similarity %.2f)" % (alts[0], scored[0][1], lines[scored[0][1] - 1].strip()[:80], scored[0][0])
+                        return scored[0][1]
+                raise Untranslatable("source line /%s/ not found in %s" % (alts[0], q["src"]))
             base = locate(q["within"]) if q.get("within") else 0
             if q.get("start_line"):
-                sl = (q["src"], locate(q["start_line"], base))
+                sl = (q["src"], locate(q["start_line"], base, fuzzy=True))
             if q.get("end_line"):
                 ends = q["end_line"] if isinstance(q["end_line"], list) else [q["end_line"]]
                 # an end marker may lie before the start (a loop head): each is searched from the function's first line
